@@ -53,7 +53,9 @@ class Scenario:
                 pass
         if self.base_fds is None:
             self.base_fds = cur
-        return {"tty": tid, "nb": nb, "sig": sid, "wake": wake, "fds": len(cur - self.base_fds)}
+        mask = signal.pthread_sigmask(signal.SIG_BLOCK, [])
+        mid = sum(1 << k for k, sg in enumerate((signal.SIGINT, signal.SIGWINCH, signal.SIGTSTP, signal.SIGCONT)) if sg in mask)
+        return {"tty": tid, "nb": nb, "sig": sid, "wake": wake, "fds": len(cur - self.base_fds), "mask": mid}
 
     def run(self):
         from curtsies import Input, FullscreenWindow, CursorAwareWindow, Cbreak, Nonblocking, Termmode
@@ -248,6 +250,9 @@ def run_in_thread(fn):
 
 class C12(TraceCheck):
     pid = "C12"
+    # blessed (third party) switches every terminal capability off when NO_COLOR is set, on the pinned tree as well:
+    # not a variable whose effect says anything about a change to curtsies
+    sweep_exclude = ("NO_COLOR",)
     module = "CtxTrace"
     rule = ("scenarios on real ptys: nestings of <=3 contexts among Input (sigint_event, disable_terminal_start_stop), "
             "FullscreenWindow (hide_cursor), CursorAwareWindow (hide_cursor, keep_last_line), Cbreak, Nonblocking, Termmode; "
@@ -328,6 +333,15 @@ class C12(TraceCheck):
                     yield [init, E("Input", sigint=sig), OP("request"), X, E("Input", sigint=sig), OP("request"), X,
                            E("Input", sigint=sig), OP("trigger"), X]
                 yield [init, E("Nonblocking"), E("Input"), OP("request"), X, X]
+                # the calling thread has SIGINT (and SIGWINCH) blocked before anything is entered
+                for m0 in (1, 2):
+                    im = dict(init, mask0=m0)
+                    for end in (X, R):
+                        yield [im, E("Input", sigint=1), OP("request"), end]
+                        yield [im, E("Input"), OP("trigger"), end]
+                        yield [im, E("CursorAware", hide=1), OP("render"), end]
+                        yield [im, E("Fullscreen"), OP("render"), end]
+                        yield [im, E("Cbreak"), E("Input", sigint=1, nostart=1), OP("request_key"), end, X]
                 # every context left through exceptions of different classes
                 for cls in ("OSError", "BrokenPipe", "Blocking", "KeyboardInterrupt", "SystemExit", "GeneratorExit", "ValueError"):
                     RX = dict(R, cls=cls)
@@ -394,11 +408,17 @@ class C12(TraceCheck):
         gc.collect()      # finalise what earlier histories left behind before the descriptor baseline is taken
 
         def go():
+            # the calling thread's signal mask before anything is entered: empty, or SIGINT / SIGWINCH already blocked
+            # (a worker started with signals blocked, an application collecting signals with sigwait)
+            blocked = {1: [signal.SIGINT], 2: [signal.SIGINT, signal.SIGWINCH]}.get(hist[0].get("mask0", 0), [])
+            old_mask = signal.pthread_sigmask(signal.SIG_BLOCK, blocked) if blocked else None
             sc = Scenario(hist)
             try:
                 return sc.run()
             finally:
                 sc.close()
+                if old_mask is not None:
+                    signal.pthread_sigmask(signal.SIG_SETMASK, old_mask)
         try:
             tr = go() if main else run_in_thread(go)
         finally:
